@@ -219,6 +219,26 @@ theorem C16_parse_options_refuses (bs : Bytes) (hb : ∀ b ∈ bs, b < 256)
     obtain ⟨seq, hwf, hbs, _⟩ := (C16_parse_options_accepts_exactly bs hb m).1 hp
     exact absurd ⟨seq, hwf, hbs⟩ h
 
+/-- **reader_returns_triplet_prefix** : for *every* byte string, what the reader-based parsers
+    (ReadTLVs / ReadTLVs1 / ReadOptions) return is the last-wins container of a prefix of the unread
+    input consisting of complete triplets — they stop quietly at the first triplet that is cut
+    short, and never assemble a parameter from anywhere else. -/
+theorem C16_reader_returns_triplet_prefix (r : Reader) (hb : ∀ b ∈ r.rest, b < 256) (res : TlvMap)
+    (h : (readTlvs r).map = some res) :
+    ∃ seq : TlvMap, WellFormed seq ∧ tlvsBytes seq <+: r.rest ∧ res = upsertAll [] seq :=
+  readTlvs_prefix r res hb h
+
+/-- **parsers_agree_on_accepted** : parser agreement stated on octets rather than on triplet lists:
+    whatever non-empty input the slice-based parser accepts, the reader-based ones turn into the
+    same container. -/
+theorem C16_parsers_agree_on_accepted (bs : Bytes) (hb : ∀ b ∈ bs, b < 256) (hne : bs ≠ []) (m : TlvMap)
+    (h : parseOptions bs = some m) (a : Nat) : (readTlvs ⟨bs, none, a⟩).map = some m := by
+  obtain ⟨seq, hwf, rfl, rfl⟩ := (C16_parse_options_accepts_exactly bs hb m).1 h
+  have hs : seq ≠ [] := by
+    rintro rfl; exact hne (by simp [tlvsBytes])
+  have := C16_parsers_agree seq hwf hs a
+  rw [this.1, this.2]
+
 example : parseOptions [0, 5, 0, 2, 1, 2, 0, 5, 0, 1, 9] = some [(5, [9])] := by decide
 example : parseOptions [0, 5, 0, 2, 1, 2, 7] = none := by decide
 example : parseOptions [0, 5, 0, 3, 1, 2] = none := by decide
@@ -239,4 +259,6 @@ open SmsVerif.C16
 #print axioms C16_add_to_empty
 #print axioms C16_parse_options_accepts_exactly
 #print axioms C16_parse_options_refuses
+#print axioms C16_reader_returns_triplet_prefix
+#print axioms C16_parsers_agree_on_accepted
 end
